@@ -100,8 +100,10 @@ class Taint:
             if self.nodata in names:
                 other = sides[1 - names.index(self.nodata)]
                 return self.level_raw(other) >= AM_P or True
-        if isinstance(e, ast.Call) and self.fname(e.func) in ("isnan", "isinf"):
+        if isinstance(e, ast.Call) and self.fname(e.func) in ("isnan", "isinf", "isfinite"):
             return True
+        if isinstance(e, ast.UnaryOp) and isinstance(e.op, ast.Not):
+            return self.is_defining_predicate(e.operand)
         if isinstance(e, ast.BoolOp):
             return all(self.is_defining_predicate(v) for v in e.values)
         return False
